@@ -58,6 +58,14 @@ def tojm_cases(rng, n):
                 d = wrap % d
             for kind in ("value", "valueref", "rcvar", "rcvarref", "variable", "variableref"):
                 out.append((kind, d))
+    # neighbouring elements that are == but not identical (1 / 1.0, 2^53 / 2^53+1, 0.0 / -0.0), directly and inside nested arrays / objects
+    for _ in range(max(40, n // 4)):
+        a = rng.choice([G.rand_scalar(rng), G.rand_doc(rng, 1), "u1", "u9007199254740993", G.f64_bits(0.3), "u0"])
+        b = G.respell_numbers(rng, a)
+        x, y = G.near_pair(rng, 1)
+        for d in ("[ %s %s %s ]" % (a, b, a), "[ [ %s %s ] ]" % (a, b), "{ s6b [ [ %s %s %s ] ] }" % (b, a, b), "[ [ %s %s ] [ %s %s ] ]" % (x, y, y, x),
+                  "[ [ [ %s %s ] ] %s ]" % (a, b, b)):
+            out.append((rng.choice(["value", "valueref", "rcvar", "variable", "variableref", "rcvarref"]), d))
     for nel in (255, 256, 257, 1000):
         for d in ("[ " + " ".join("u%d" % (i % 10) for i in range(nel)) + " ]", "{ " + " ".join(G.enc_str("k%04d" % i) + " u1" for i in range(nel)) + " }",
                   G.enc_str("x" * nel), G.enc_str("é" * nel)):
@@ -107,6 +115,24 @@ def run(ctx):
             for e in ("length(@)", "reverse(@) | length(@)", "to_string(@) | length(@)", "keys(@) | length(@)", "[*] | length(@)", "sort(@)[0]",
                       "@[-1]", "[::2] | length(@)", "values(@) | length(@)", "to_array(@) | length(@)", "join('', @[*].to_string(@)) | length(@)"):
                 sized.append(C.hexs(e) + "\t" + d)
+    # order-sensitive builtins over ==-equal but differently spelled numbers (which of two equal maxima is returned must not depend on the build)
+    for _ in range(300 if q else 20000):
+        a = rng.choice(["u1", "u2", "u9007199254740993", G.f64_bits(0.3), "u0", "i-1", G.f64_bits(2.0), "u18446744073709551615"])
+        b = G.respell_numbers(rng, a)
+        c = rng.choice(["u0", "u5", a, b])
+        xs = [a, b, c, b, a][:rng.randrange(2, 6)]
+        rng.shuffle(xs)
+        d = "[ " + " ".join(xs) + " ]"
+        e = rng.choice(["max(@)", "min(@)", "sort(@)", "max_by(@, &@)", "min_by(@, &@)", "sort_by(@, &@)", "reverse(sort(@))", "[max(@), min(@)]", "sort(@)[0]", "sort(@)[-1]"])
+        sized.append(C.hexs(e) + "\t" + d)
+    # large arrays with several ill-typed elements (the first one in document order decides the error)
+    for _ in range(6 if q else 200):
+        nel = rng.choice([1024, 2048, 4097])
+        xs = ["u%d" % (i % 7) for i in range(nel)]
+        for _k in range(rng.randrange(2, 5)):
+            xs[rng.randrange(nel)] = rng.choice(["t", G.enc_str("s"), "n", "[ ]"])
+        for e in ("[*].abs(@)", "map(&abs(@), @)", "[?abs(@) > `0`]", "sum(@)"):
+            sized.append(C.hexs(e) + "\t[ " + " ".join(xs) + " ]")
     streams["eval"] = streams["eval"] + sized
     if getattr(ctx, "replay", None):
         streams = {ctx.replay["stream"]: [ctx.replay["case"]]}
@@ -141,6 +167,8 @@ def run(ctx):
                 if "specialized" in bins and f.get("spec") != sref:
                     ctx.violation(st, line[:600], sref[:200], (f.get("spec") or m)[:200], "specialised conversion differs from the model")
             elif st == "eval":
+                if m.startswith("FAULT"):
+                    continue          # the model ran out of its evaluation fuel (documents of thousands of elements): no opinion
                 if S.canon_eval(ref) != S.canon_eval(m):
                     ctx.violation(st, line[:600], S.canon_eval(ref)[:200], S.canon_eval(m)[:200], "default build differs from the model")
             elif st == "serde":
